@@ -30,7 +30,7 @@ type LifeParams struct {
 	MaxAssoc int    `json:"maxAssoc"`
 	Race     bool   `json:"race"`
 	Forced   bool   `json:"forced"` // also run the deterministic forced schedules (counterexamples of the life-cycle model)
-	Scale    bool   `json:"scale"` // the last run has more associations than the node's completion channel has slots (100)
+	Scale    bool   `json:"scale"`  // the last run has more associations than the node's completion channel has slots (100)
 	Gated    bool   `json:"gated"`  // the interleaving at the scheduling points is chosen by a seeded random scheduler (blocking gates)
 }
 
